@@ -134,6 +134,11 @@ def curated():
                                          "relations": [["conflict", "clear", "dec", "U"], ["conflict", "clear", "inc", "U"]]}
     D["several_relations_one_transaction"] = {"items": [M("A", iw=0), T("T0", [call("A")]), T("T1"), T("T2"), T("T3")],
                                               "relations": [["conflict", "T3", "T2", "U"], ["conflict", "T3", "A", "L"], ["conflict", "T3", "T1", "R"]]}
+    # an FSM nested in a state of another FSM, followed by further outer states (with every kind of statement, calls and a nested body)
+    D["nested_fsm"] = {"items": [M("M0", iw=1), M("M1", iw=0, ow=0),
+                                 T("T0", [Fsm([Fsm(ALLW + [call("M0")], ALLW)] + ALLW, ALLW + [call("M0")], ALLW + [call("M1")])]),
+                                 M("MF", [Fsm([Fsm(ALLW, ALLW + [call("M1")]), wit("av_comb")], ALLW)], iw=0, ow=1), T("T1", [call("MF")])]}
+    D["nested_fsm_in_switch_with_body"] = {"items": [M("M0", iw=0), T("T0", [Sw(1, [("0", [Fsm([Fsm([wit("comb")], [wit("av_comb")])], [{"k": "trans", "name": "TN", "ready": "free", "body": [call("M0")] + ALLW}])]), ("1", ALLW)])])]}
     # a nonexclusive method reached at different call depths (directly, and through an exclusive wrapper): no conflict
     D["nonexclusive_ancestor_unequal_depth"] = {"items": [M("leaf", iw=0), M("N", [call("leaf")], iw=0, ow=0, nonexclusive=True), M("W", [call("N")], iw=0, ow=1),
                                                           T("T0", [call("W")]), T("T1", [call("N")]), T("T2", [If([call("W", en=True)])])]}
